@@ -25,7 +25,6 @@ func ContainsFold(s, substr string) (ok bool) {
 	}
 
 	first, _ := utf8.DecodeRuneInString(substr)
-	firstFolded := unicode.SimpleFold(first)
 
 	for i := 0; i != -1 && len(s) >= len(substr); {
 		if strings.EqualFold(s[:substrLen], substr) {
@@ -33,7 +32,19 @@ func ContainsFold(s, substr string) (ok bool) {
 		}
 
 		i = strings.IndexFunc(s[1:], func(r rune) (eq bool) {
-			return r == first || r == firstFolded
+			if r == first {
+				return true
+			}
+
+			// Walk the whole orbit of first, since it may have more than two
+			// members, e.g. 'k', 'K', and the Kelvin sign.
+			for f := unicode.SimpleFold(first); f != first; f = unicode.SimpleFold(f) {
+				if r == f {
+					return true
+				}
+			}
+
+			return false
 		})
 
 		s = s[1+i:]
